@@ -14,12 +14,13 @@
    proofs/EncUniq.v: no two edges of a row lead to the same atom, so the two directions of a ring bond always carry the
    same order), no ValueError (proofs/EncOrders.v: every bond of order 1.5 joins two atoms of the delocalisation subgraph
    and is listed there in both directions, so dearomatize rewrites every one of them; orders after kekulize are 1, 2 or 3).
-   Not proved: crash freedom of kekulisation / matching itself; outcome
+   Middle stage (proofs/EncKek.v, EncMatch.v): kekulize on a parsed graph can raise only inside find_perfect_matching.
+   Not proved: crash freedom of the matching loops themselves; outcome
    classes of implementation and model are compared on malformed input on every run. *)
 From Coq Require Import String List ZArith NArith Bool.
 Import ListNotations.
 From Selfies Require Import Base Generated Atoms Grammar Decoder PySet Matching Smiles Kekulize Encoder
-  IndexSpec IndexCode Reader RoundTrip EncoderFacts PureFacts ParserTotal EncFuel EncIndex EncKey EncAttrErr EncUniq EncOrders EncKek EncOutcomes.
+  IndexSpec IndexCode Reader RoundTrip EncoderFacts PureFacts ParserTotal EncFuel EncIndex EncKey EncAttrErr EncUniq EncOrders EncKek EncMatch EncOutcomes.
 Local Open Scope string_scope.
 
 Theorem C09_parse_error_is_encoder_error_partial : forall capf s strict attribute,
@@ -96,16 +97,14 @@ Theorem C09_kekulize_leaves_integral_orders : forall smiles attribute m0 m1,
   forall j row e, nth_error (m_adj m1) j = Some row -> In (Some e) row -> (e_order2 e = 2 \/ e_order2 e = 4 \/ e_order2 e = 6)%Z.
 Proof. exact parsed_kekulize_orders. Qed.
 
-(* middle stage: on a graph the reader returned, kekulize can raise only inside find_perfect_matching or while the
-   matching it returned is written back; the element test, _prune_from_ds over every key, the relabelling and
-   dearomatize always return *)
-Theorem C09_kekulize_fails_only_in_matching_partial : forall smiles attribute m0 e,
+(* middle stage: on a graph the reader returned, kekulize can raise only inside find_perfect_matching: the element
+   test, _prune_from_ds over every key, the relabelling and dearomatize always return (proofs/EncKek.v), and whatever
+   matching find_perfect_matching returns can be written back (proofs/EncMatch.v: it has one entry per node, every
+   entry names a partner, and each pair is an edge of the pruned graph, hence a stored bond) *)
+Theorem C09_kekulize_fails_only_inside_matching_partial : forall smiles attribute m0 e,
   smiles_to_mol smiles attribute = Ok m0 -> kekulize m0 = Err e ->
-  exists g, pruned_ds m0 = Ok g /\
-    (find_perfect_matching g = Err e \/
-     exists mt kept m1, find_perfect_matching g = Ok (Some mt) /\ kept_nodes_of m0 (ds_keys (m_ds m0)) = Ok kept /\
-       dearomatize m0 (ds_items (m_ds m0)) = Ok m1 /\ set_double_bonds m1 (sort_nat kept) (enum_from 0 mt) = Err e).
-Proof. intros smiles attribute m0 e Ep. exact (kekulize_fails_only_in_matching m0 e (parsed_kpre _ _ _ Ep)). Qed.
+  exists g, pruned_ds m0 = Ok g /\ find_perfect_matching g = Err e.
+Proof. intros smiles attribute m0 e Ep. exact (kekulize_fails_only_inside_matching m0 e (parsed_kpre _ _ _ Ep)). Qed.
 
 (* assembled: the outcomes of the last stage *)
 Theorem C09_last_stage_outcomes_partial : forall T smiles strict attribute m0 m1 e,
@@ -127,4 +126,4 @@ Print Assumptions C09_last_stage_outcomes_partial.
 Print Assumptions C09_emission_no_assertion_error_partial.
 Print Assumptions C09_emission_no_value_error_partial.
 Print Assumptions C09_kekulize_leaves_integral_orders.
-Print Assumptions C09_kekulize_fails_only_in_matching_partial.
+Print Assumptions C09_kekulize_fails_only_inside_matching_partial.
